@@ -18,7 +18,23 @@
 
    The main step functions model the code WITH the fixes c11_fix_a / c11_fix_b_inbound / c11_fix_b
    applied ([fixed]); [prefix] switches the three repaired branches back to the historical code and
-   exists only to state the [_refuted] theorems.  No proofs in this file. *)
+   exists only to state the [_refuted] theorems.  No proofs in this file.
+
+   Panics and [defer].  The environment may answer a piece of work (DataSource.Load, resolution) or a
+   call of the actor's own client writer with a PANIC.  The panic unwinds the actor's goroutine up to
+   the request boundary, where it is recovered (what net/http does for every handler): the actor
+   returns with [OCrash None].  While unwinding, exactly the DEFERRED calls run:
+   - subgraph: [defer l.singleFlight.Finish(item)] in loadByContext - a panicking leader skips the
+     publication of response / err and goes straight to Finish (Delete, Y3, close(loaded));
+     [sub_defer = false] is the code in which Finish is an ordinary call on the return paths;
+   - inbound: [defer r.inboundRequestSingleFlight.Abandon(inflight)] (c11_fix_c) in
+     ArenaResolveGraphQLResponse: Delete + close(Done) with neither Data nor Err unless Done is already
+     closed; [fix_c = false] is the tree before that repair: nothing is deferred, the leader is gone and
+     its entry stays ([asis]).
+   The client writer is a parking point of its own ([PWrite] leader / alone, [PFWrite] follower): the
+   environment answers the Write with ok, with the WRITER's error (private to the actor: it is returned
+   to the actor's caller and never stored in the shared entry - FinishOk runs all the same), or with a
+   panic.  [a_wr] records that answer; [OWrote] keeps meaning "bytes handed to the caller's writer". *)
 From Gv Require Import lib.Bytes.
 From Coq Require Import Arith.
 Open Scope nat_scope.
@@ -60,7 +76,10 @@ Definition elig (r : req) : bool := rquery r && rdedup r.
 Inductive outcome :=
 | OWrote (k : bkind) (d : bytes) (from : option nat)  (* bytes handed to the caller's writer; from = Some j: shared result of j *)
 | OErr (e : err)
-| OPanic.                                             (* close of closed channel *)
+| OPanic                                              (* close of closed channel *)
+| OCrash (from : option nat).   (* None: the actor's own work / own writer panicked (environment), recovered at the
+                                   request boundary; Some j: woke on the item of j that panic unwinding released
+                                   with nothing published (subgraph: res.out = nil, err = nil) *)
 
 (* answers of the environment to a piece of work *)
 Inductive answer :=
@@ -68,25 +87,38 @@ Inductive answer :=
 | AFailBody   (* upstream fails, the failure is rendered into the body (inbound only) *)
 | ACanBody    (* the actor's own context is cancelled, the failure is rendered into the body (inbound only) *)
 | AErrUp      (* the work returns the upstream error as a Go error *)
-| AErrCtx.    (* the work returns the actor's own context error as a Go error *)
+| AErrCtx     (* the work returns the actor's own context error as a Go error *)
+| APanic.     (* the work panics on the actor's goroutine *)
+
+(* answers of the environment to a Write on the actor's own client writer *)
+Inductive wans := WOk | WFail | WPanic.
 
 Inductive action :=
 | Tau (i : nat)               (* next internal atomic region of actor i *)
 | WakeDone (i : nat)          (* actor i's select takes the closed Done / loaded channel *)
 | WakeCtx (i : nat)           (* actor i's select takes its own ctx.Done() *)
 | Ans (i : nat) (w : answer)  (* the work of actor i completes *)
-| Cancel (i : nat).           (* environment: the context of actor i is cancelled *)
+| Cancel (i : nat)            (* environment: the context of actor i is cancelled *)
+| Wr (i : nat) (v : wans).    (* the Write on actor i's own client writer completes *)
 
 Definition actor_of (a : action) : nat :=
-  match a with Tau i | WakeDone i | WakeCtx i | Ans i _ | Cancel i => i end.
+  match a with Tau i | WakeDone i | WakeCtx i | Ans i _ | Cancel i | Wr i _ => i end.
 
 Definition is_cancel (a : action) : bool := match a with Cancel _ => true | _ => false end.
 
 Inductive obs := ORet (i : nat) (o : outcome).
 
-Record fixes := { fix_a : bool; fix_b : bool }.
-Definition fixed : fixes := {| fix_a := true; fix_b := true |}.
-Definition prefix : fixes := {| fix_a := false; fix_b := false |}.
+Record fixes := {
+  fix_a : bool; fix_b : bool;
+  fix_c : bool;        (* inbound: Abandon is deferred by the leader (runs while a panic unwinds) *)
+  sub_defer : bool     (* subgraph: Finish is deferred by the leader (true in every version of the tree) *)
+}.
+Definition fixed : fixes := {| fix_a := true; fix_b := true; fix_c := true; sub_defer := true |}.
+Definition prefix : fixes := {| fix_a := false; fix_b := false; fix_c := false; sub_defer := true |}.
+(* the tree before c11_fix_c: inbound leader without a deferred release *)
+Definition asis : fixes := {| fix_a := true; fix_b := true; fix_c := false; sub_defer := true |}.
+(* loadByContext with Finish called explicitly on the ordinary return paths instead of deferred *)
+Definition nodefer : fixes := {| fix_a := true; fix_b := true; fix_c := true; sub_defer := false |}.
 
 Definition upd {A} (f : nat -> A) (i : nat) (v : A) : nat -> A :=
   fun j => if Nat.eqb j i then v else f j.
@@ -101,7 +133,9 @@ Inductive pc :=
 | PStart     (* eligibility test + LoadOrStore *)
 | PY1        (* follower, Y1: followerCount.Add(1) *)
 | PWait      (* follower: select on Done / own ctx *)
-| PWork      (* leader or alone: execute (Y-load, answered by the environment), write the bytes *)
+| PWork      (* leader or alone: execute (Y-load, answered by the environment) *)
+| PWrite     (* leader or alone: writer.Write(buf.Bytes()) on the own client writer (Y-w, answered by the environment) *)
+| PFWrite    (* follower holding the shared Data: writer.Write(inflight.Data) (Y-w) *)
 | PDelete    (* FinishOk: shard.m.Delete(req.ID) *)
 | PHasF      (* FinishOk: HasFollowers() (&& !leaderGone()) *)
 | PCopy      (* FinishOk: copy Data iff the read was true *)
@@ -109,6 +143,8 @@ Inductive pc :=
 | PFDelete   (* FinishErr: Delete *)
 | PFErr      (* FinishErr: Err := err (unless leaderGone()) *)
 | PFClose    (* FinishErr: close(Done) *)
+| PADelete   (* deferred Abandon while a panic unwinds: Done still open? then Delete *)
+| PAClose    (* Abandon: close(Done) *)
 | PDone.     (* returned *)
 
 Record actor := {
@@ -120,7 +156,8 @@ Record actor := {
   a_perr : err;           (* error handed to FinishErr *)
   a_hasf : bool;          (* value read by HasFollowers (&& !leaderGone) *)
   a_out : option outcome;
-  a_ans : option answer   (* ghost: how the environment answered this actor's own work *)
+  a_ans : option answer;  (* ghost: how the environment answered this actor's own work *)
+  a_wr : option wans      (* ghost: how the environment answered the Write on this actor's own writer *)
 }.
 
 Record entry := {      (* InflightRequest created by actor j (pointer identity = j) *)
@@ -138,34 +175,38 @@ Record state := {
 
 Definition actor0 : actor :=
   {| a_pc := PStart; a_ref := None; a_cancel := false; a_kind := KOk; a_res := []; a_perr := EUp 0;
-     a_hasf := false; a_out := None; a_ans := None |}.
+     a_hasf := false; a_out := None; a_ans := None; a_wr := None |}.
 Definition entry0 : entry := {| e_done := false; e_data := None; e_err := None; e_fc := 0 |}.
 Definition init : state := {| tbl := fun _ => None; ent := fun _ => entry0; act := fun _ => actor0 |}.
 
 Definition set_pc (a : actor) (p : pc) : actor :=
   {| a_pc := p; a_ref := a_ref a; a_cancel := a_cancel a; a_kind := a_kind a; a_res := a_res a;
-     a_perr := a_perr a; a_hasf := a_hasf a; a_out := a_out a; a_ans := a_ans a |}.
+     a_perr := a_perr a; a_hasf := a_hasf a; a_out := a_out a; a_ans := a_ans a; a_wr := a_wr a |}.
 Definition set_ref (a : actor) (r : option nat) : actor :=
   {| a_pc := a_pc a; a_ref := r; a_cancel := a_cancel a; a_kind := a_kind a; a_res := a_res a;
-     a_perr := a_perr a; a_hasf := a_hasf a; a_out := a_out a; a_ans := a_ans a |}.
+     a_perr := a_perr a; a_hasf := a_hasf a; a_out := a_out a; a_ans := a_ans a; a_wr := a_wr a |}.
 Definition set_cancel (a : actor) : actor :=
   {| a_pc := a_pc a; a_ref := a_ref a; a_cancel := true; a_kind := a_kind a; a_res := a_res a;
-     a_perr := a_perr a; a_hasf := a_hasf a; a_out := a_out a; a_ans := a_ans a |}.
+     a_perr := a_perr a; a_hasf := a_hasf a; a_out := a_out a; a_ans := a_ans a; a_wr := a_wr a |}.
 Definition set_work (a : actor) (k : bkind) (d : bytes) : actor :=
   {| a_pc := a_pc a; a_ref := a_ref a; a_cancel := a_cancel a; a_kind := k; a_res := d;
-     a_perr := a_perr a; a_hasf := a_hasf a; a_out := a_out a; a_ans := a_ans a |}.
+     a_perr := a_perr a; a_hasf := a_hasf a; a_out := a_out a; a_ans := a_ans a; a_wr := a_wr a |}.
 Definition set_perr (a : actor) (e : err) : actor :=
   {| a_pc := a_pc a; a_ref := a_ref a; a_cancel := a_cancel a; a_kind := a_kind a; a_res := a_res a;
-     a_perr := e; a_hasf := a_hasf a; a_out := a_out a; a_ans := a_ans a |}.
+     a_perr := e; a_hasf := a_hasf a; a_out := a_out a; a_ans := a_ans a; a_wr := a_wr a |}.
 Definition set_hasf (a : actor) (b : bool) : actor :=
   {| a_pc := a_pc a; a_ref := a_ref a; a_cancel := a_cancel a; a_kind := a_kind a; a_res := a_res a;
-     a_perr := a_perr a; a_hasf := b; a_out := a_out a; a_ans := a_ans a |}.
+     a_perr := a_perr a; a_hasf := b; a_out := a_out a; a_ans := a_ans a; a_wr := a_wr a |}.
 Definition set_out (a : actor) (o : outcome) : actor :=
   {| a_pc := a_pc a; a_ref := a_ref a; a_cancel := a_cancel a; a_kind := a_kind a; a_res := a_res a;
-     a_perr := a_perr a; a_hasf := a_hasf a; a_out := Some o; a_ans := a_ans a |}.
+     a_perr := a_perr a; a_hasf := a_hasf a; a_out := Some o; a_ans := a_ans a; a_wr := a_wr a |}.
 Definition set_ans (a : actor) (w : answer) : actor :=
   {| a_pc := a_pc a; a_ref := a_ref a; a_cancel := a_cancel a; a_kind := a_kind a; a_res := a_res a;
-     a_perr := a_perr a; a_hasf := a_hasf a; a_out := a_out a; a_ans := Some w |}.
+     a_perr := a_perr a; a_hasf := a_hasf a; a_out := a_out a; a_ans := Some w; a_wr := a_wr a |}.
+
+Definition set_wr (a : actor) (v : wans) : actor :=
+  {| a_pc := a_pc a; a_ref := a_ref a; a_cancel := a_cancel a; a_kind := a_kind a; a_res := a_res a;
+     a_perr := a_perr a; a_hasf := a_hasf a; a_out := a_out a; a_ans := a_ans a; a_wr := Some v |}.
 
 Definition e_close (e : entry) : entry :=
   {| e_done := true; e_data := e_data e; e_err := e_err e; e_fc := e_fc e |}.
@@ -257,7 +298,28 @@ Definition tau (s : state) (i : nat) : option state :=
     | Some j => Some (do_close s i j a)
     | None => None
     end
-  | PWait | PWork | PDone => None
+  | PADelete =>
+    (* Abandon: select on Done (closed = FinishOk / FinishErr ran: nothing to do), else Delete *)
+    match a_ref a with
+    | Some j =>
+      if e_done (ent s j) then Some (with_act s i (set_pc a PDone))
+      else Some (with_act (with_tbl s (rkey (rq j)) None) i (set_pc a PAClose))
+    | None => None
+    end
+  | PAClose =>
+    match a_ref a with
+    | Some j => Some (do_close s i j a)
+    | None => None
+    end
+  | PWait | PWork | PWrite | PFWrite | PDone => None
+  end.
+
+(* where a panic that unwinds actor a's goroutine leaves it: the holder of a request runs the deferred
+   Abandon (c11_fix_c), everybody else - and everybody on the tree without that repair - is simply gone *)
+Definition crash_pc (a : actor) : pc :=
+  match a_ref a with
+  | Some _ => if fix_c fx then PADelete else PDone
+  | None => PDone
   end.
 
 (* the follower's select took Done: GetOrCreate's tail and the caller's classification *)
@@ -270,7 +332,7 @@ Definition wake_done (s : state) (i : nat) : option state :=
       | Some e => Some (with_act s i (set_pc (set_out a (OErr e)) PDone))
       | None =>
         match e_data (ent s j) with
-        | Some (k, d) => Some (with_act s i (set_pc (set_out a (OWrote k d (Some j))) PDone))
+        | Some (k, d) => Some (with_act s i (set_pc (set_work a k d) PFWrite))   (* the caller's follower branch *)
         | None =>
           if fix_a fx
           then Some (with_act s i (set_pc (set_ref a None) PWork))   (* nil, nil: not de-duplicated *)
@@ -288,11 +350,15 @@ Definition wake_ctx (s : state) (i : nat) : option state :=
   | _ => None
   end.
 
-Definition finish_ok (s : state) (i : nat) (w : answer) (k : bkind) : state :=
+(* the work produced a body: the caller goes on to write it to its own client writer *)
+Definition work_done (s : state) (i : nat) (w : answer) (k : bkind) : state :=
   let a := act s i in
-  let d := body (rq i) k in
-  let a1 := set_ans (set_out (set_work a k d) (OWrote k d None)) w in
-  with_act s i (set_pc a1 (match a_ref a with None => PDone | Some _ => PDelete end)).
+  with_act s i (set_pc (set_ans (set_work a k (body (rq i) k)) w) PWrite).
+
+(* the work panicked *)
+Definition crashed (s : state) (i : nat) (w : answer) : state :=
+  let a := act s i in
+  with_act s i (set_pc (set_ans (set_out a (OCrash None)) w) (crash_pc a)).
 
 Definition finish_err (s : state) (i : nat) (w : answer) (e : err) : state :=
   let a := act s i in
@@ -304,11 +370,37 @@ Definition ans (s : state) (i : nat) (w : answer) : option state :=
   match a_pc a with
   | PWork =>
     match w with
-    | AOk => Some (finish_ok s i w KOk)
-    | AFailBody => Some (finish_ok s i w KFail)
-    | ACanBody => if a_cancel a then Some (finish_ok s i w KCan) else None
+    | AOk => Some (work_done s i w KOk)
+    | AFailBody => Some (work_done s i w KFail)
+    | ACanBody => if a_cancel a then Some (work_done s i w KCan) else None
     | AErrUp => Some (finish_err s i w (EUp i))
     | AErrCtx => if a_cancel a then Some (finish_err s i w (ECtx i)) else None
+    | APanic => Some (crashed s i w)
+    end
+  | _ => None
+  end.
+
+(* the Write on the own client writer completes.  A failed Write is the actor's private matter: the
+   leader's [_, err = writer.Write(buf.Bytes())] is followed by FinishOk(inflight, buf.Bytes()) whatever
+   err is, and err is only returned to the leader's own caller. *)
+Definition wr (s : state) (i : nat) (v : wans) : option state :=
+  let a := act s i in
+  match a_pc a with
+  | PWrite =>
+    match v with
+    | WOk | WFail =>
+      Some (with_act s i (set_pc (set_wr (set_out a (OWrote (a_kind a) (a_res a) None)) v)
+                                 (match a_ref a with None => PDone | Some _ => PDelete end)))
+    | WPanic => Some (with_act s i (set_pc (set_wr (set_out a (OCrash None)) v) (crash_pc a)))
+    end
+  | PFWrite =>
+    match a_ref a with
+    | Some j =>
+      match v with
+      | WOk | WFail => Some (with_act s i (set_pc (set_wr (set_out a (OWrote (a_kind a) (a_res a) (Some j))) v) PDone))
+      | WPanic => Some (with_act s i (set_pc (set_wr (set_out a (OCrash None)) v) PDone))   (* nothing deferred yet *)
+      end
+    | None => None
     end
   | _ => None
   end.
@@ -321,6 +413,7 @@ Definition step (s : state) (x : action) : option state :=
     | WakeCtx i => wake_ctx s i
     | Ans i w => ans s i w
     | Cancel i => if a_cancel (act s i) then None else Some (with_act s i (set_cancel (act s i)))
+    | Wr i v => wr s i v
     end
   else None.
 
@@ -330,6 +423,7 @@ Definition obs_of (s s' : state) (x : action) : list obs :=
   | None, Some o => [ORet i o]
   | Some (OWrote _ _ _), Some OPanic => [ORet i OPanic]
   | Some (OErr _), Some OPanic => [ORet i OPanic]
+  | Some (OCrash _), Some OPanic => [ORet i OPanic]
   | _, _ => []
   end.
 
@@ -481,7 +575,10 @@ Definition wake_done (s : state) (i : nat) : option state :=
         | None =>
           match it_resp t with
           | Some d => Some (with_act s i (set_pc (set_out a (OWrote KOk d (Some j))) PDone))
-          | None => Some (with_act s i (set_pc (set_out a (OWrote KOk [] (Some j))) PDone))  (* res.out = nil *)
+          | None =>
+            (* res.out = item.response = nil, return nil: the item was released with nothing published,
+               which only the deferred Finish of a panicking leader does *)
+            Some (with_act s i (set_pc (set_out a (OCrash (Some j))) PDone))
           end
         end
     else None
@@ -503,12 +600,23 @@ Definition loaded (s : state) (i : nat) (w : answer) (r : option bytes) (e : err
   let a1 := set_ans (set_out (set_load a r e) o) w in
   with_act s i (set_pc a1 (match a_ref a with None => PDone | Some _ => PPublish end)).
 
+(* loadByContextDirect panicked: the leader's deferred Finish runs while the panic unwinds (no
+   publication); without the defer the leader is simply gone *)
+Definition crashed (s : state) (i : nat) (w : answer) : state :=
+  let a := act s i in
+  let a1 := set_ans (set_out a (OCrash None)) w in
+  with_act s i (set_pc a1 (match a_ref a with
+                           | None => PDone
+                           | Some _ => if sub_defer fx then PDelete else PDone
+                           end)).
+
 Definition ans (s : state) (i : nat) (w : answer) : option state :=
   let a := act s i in
   match a_pc a with
   | PLoad =>
     match w with
     | AOk => Some (loaded s i w (Some (rok (rq i))) (EUp i))
+    | APanic => Some (crashed s i w)
     | AErrUp => Some (loaded s i w None (EUp i))
     | AErrCtx => if a_cancel a then Some (loaded s i w None (ECtx i)) else None
     | AFailBody | ACanBody => None
@@ -524,6 +632,7 @@ Definition step (s : state) (x : action) : option state :=
     | WakeCtx i => wake_ctx s i
     | Ans i w => ans s i w
     | Cancel i => if a_cancel (act s i) then None else Some (with_act s i (set_cancel (act s i)))
+    | Wr _ _ => None     (* the client writer is outside loadByContext *)
     end
   else None.
 
@@ -533,6 +642,7 @@ Definition obs_of (s s' : state) (x : action) : list obs :=
   | None, Some o => [ORet i o]
   | Some (OWrote _ _ _), Some OPanic => [ORet i OPanic]
   | Some (OErr _), Some OPanic => [ORet i OPanic]
+  | Some (OCrash _), Some OPanic => [ORet i OPanic]
   | _, _ => []
   end.
 
